@@ -1423,4 +1423,15 @@ func TestVerif_C06(t *testing.T) {
 	for _, c := range []string{"ont.transfer:ok+ong-moved", "ont.transfer:ok+ong-granted", "ong.transferFrom:ok", "ont.transferFrom:debit-beyond-allowance/refused", "ont.transfer:debit-without-owner-witness/refused", "ong.transfer:debit-beyond-balance/refused", "ont.transferV2:ok", "ong.approve:allowance-granted-without-owner-witness/refused"} {
 		r.NeedClass(c)
 	}
+	// the zero-position batches: every position of the zero-valued state was seen
+	// both in an applied and in a refused batch (also need_classes in checks.d/C06.json)
+	for t := 0; t < 2; t++ {
+		for _, m := range []string{"transfer", "transferV2"} {
+			for _, pos := range []string{"first", "middle", "last"} {
+				for _, o := range []string{"applied", "refused"} {
+					r.NeedClass("batch/zero@" + pos + "/" + c06tokName[t] + "." + m + ":" + o)
+				}
+			}
+		}
+	}
 }
